@@ -483,11 +483,10 @@ def run(ctx, replay):
                                     allowed=["HELO:", "MAIL:ok", "MAIL:rej", "RCPT:ok", "RSET:", "DROP:"]))
 
     def job_spell():   # LMTP: the same recipient in another spelling in a later transaction of the session
+        al = ["HELO:", "MAIL:ok", "RCPT:ok", "RCPT:up", "DATA:ok", "RSET:", "DROP:"] + (["DATA:loop"] if thorough else [])
         return ctx.tlc("Session", None, name="spell", workers=4, timeout=900, heap="3g",
-                       cfg_text=cfg(["ra"], [1], ["perm"], 1 if thorough else 0, 8, devs=open_devs, gen=True,
-                                    tail="VIEW GenView\n" + GEN_TAIL, lmtps=["TRUE"], holds=["FALSE"],
-                                    allowed=["HELO:", "MAIL:ok", "RCPT:ok", "RCPT:up", "DATA:ok", "DATA:loop",
-                                             "RSET:", "DROP:"]))
+                       cfg_text=cfg(["ra"], [1], ["perm"], 0, 8, devs=open_devs, gen=True,
+                                    tail="VIEW GenViewTx\n" + GEN_TAIL, lmtps=["TRUE"], holds=["FALSE"], allowed=al))
 
     def job_sim(i, n, rc, nts, mf, mc):
         return ctx.tlc("Session", None, name="sim%d" % i, workers=1, timeout=1500, simulate=n, depth=150, heap="2g",
